@@ -413,16 +413,24 @@ def run_scripted(case, ctx):
         done = threading.Event()
         err = {}
 
+        # one sequence in four runs with warnings turned into errors (python -W error, pytest -W error): the warnings joblib
+        # issues about an abandoned run then RAISE where they are issued - the abandoned run must be cleaned up all the same
+        strict = case["i"] % 4 == 1
+
         def abandon():
             nonlocal g
             try:
                 with warnings.catch_warnings():
-                    warnings.simplefilter("ignore")
+                    warnings.simplefilter("error" if strict else "ignore")
+                    if strict:
+                        ctx.count("abandons_with_warnings_as_errors")
                     if plan2 == "close":
                         g.close()
                     else:
                         g = None
                         gc.collect()
+            except Warning:
+                ctx.count("abandons_that_raised_the_warning")
             except BaseException as e:  # noqa
                 err["e"] = e
             done.set()
